@@ -71,12 +71,15 @@ def check_seq(prop, tier, seed, scale=1.0):
     runs, steps = quick if tier == "quick" else thorough
     runs = max(100, int(runs * scale))
     variants = ["vdebug", "vrelease"]
+    if prop in ("C02", "C13"):
+        # AddressSanitizer build cooperating with SimAlloc: out-of-bounds / use-after-free reads
+        variants.append("asan")
     for v in variants:
         C.build(v, ("seq",))
     found, sums, crashes = [], [], 0
     per_variant = {}
     for v in variants:
-        r = C.run_batch("seq", v, seed, tag, profile, runs, steps)
+        r = C.run_batch("seq", v, seed, tag + (50000 if v == "asan" else 0), profile, runs // 2 if v == "asan" else runs, steps)
         found += [(v, rec) for rec in r["violations"]]
         sums += r["summaries"]
         crashes += r["crashes"]
@@ -598,7 +601,7 @@ def check_c17(prop, tier, seed, scale=1.0):
     t0 = time.time()
     tag = 117
     runs = max(400, int((300000 if tier == "quick" else 12000000) * scale))
-    variants = ["vdebug", "vrelease"]
+    variants = ["vdebug", "vrelease", "asan"]
     found, sums, crashes = [], [], 0
     per_variant = {}
     for v in variants:
@@ -723,6 +726,7 @@ def setup():
     C.build("nostd", ("seq",))
     C.build("nostd-debug", ("seq",))
     C.build("xplat", ("seq", "buf"))
+    C.build("asan", ("seq", "buf"))
     C.build_sched("vrelease")
     miri_build()
 
